@@ -112,6 +112,20 @@ def default_of(t):
     raise Unsupported(f'no default for {t}')
 
 
+def _target_names(tg):
+    """names (re)bound by an assignment target: `x`, `(x, y)`; `x[...] = e` / `x.a = e` update x (the names inside the subscript are only read)"""
+    if isinstance(tg, ast.Name):
+        return [tg.id]
+    if isinstance(tg, (ast.Tuple, ast.List)):
+        return [n for e in tg.elts for n in _target_names(e)]
+    if isinstance(tg, (ast.Subscript, ast.Attribute)):
+        b = tg.value
+        while isinstance(b, (ast.Subscript, ast.Attribute)):
+            b = b.value
+        return [b.id] if isinstance(b, ast.Name) else []
+    return []
+
+
 def _assigned(stmts):
     """names (re)bound by a statement list, incl. lists appended to and loop targets"""
     out = []
@@ -119,9 +133,7 @@ def _assigned(stmts):
         for n in ast.walk(st):
             if isinstance(n, ast.Assign):
                 for tg in n.targets:
-                    for m in ast.walk(tg):
-                        if isinstance(m, ast.Name):
-                            out.append(m.id)
+                    out += _target_names(tg)
             elif isinstance(n, ast.AugAssign) and isinstance(n.target, ast.Name):
                 out.append(n.target.id)
             elif isinstance(n, ast.AugAssign) and isinstance(n.target, ast.Subscript) and isinstance(n.target.value, ast.Name):
